@@ -607,3 +607,182 @@ pub fn run_all(which: &[&str], thorough: bool, threads: usize) -> (MStats, Vec<V
     }
     (total, vs, jobs.len())
 }
+
+// ------------------------------------------------------------------------------------------
+// Real-hasher runs: the structures under their DEFAULT hashers (SipHash), with oracles that need
+// no knowledge of hash classes. The exhaustive searches bind the code to model hashers that are
+// defined on the hashing patterns the unchanged code uses; a tree that hashes in another way is
+// outside those models (machinery exit). These runs are independent of that seam: they run first
+// and report what can be said without it.
+
+/// which: any of "cuckoo", "qf", "cms", "hll". Returns (stats, violations).
+pub fn real_hasher_runs(which: &[&str]) -> (MStats, Vec<Viol>) {
+    let mut st = MStats::default();
+    let mut vs: Vec<Viol> = vec![];
+    if which.contains(&"cuckoo") {
+        for &(b, nb, l) in &[(2usize, 16usize, 8usize), (4, 64, 12), (3, 8, 5), (2, 8, 64)] {
+            for kind in [0usize, 3] {
+                for tail in [Tail::Zero, Tail::Max] {
+                    let cfg = json!({"structure": "CuckooFilter", "hasher": "default (SipHash)", "bucketsize": b, "n_buckets": nb, "l_fingerprint": l, "key_family": kind, "rng_tail_policy": format!("{:?}", tail)});
+                    let sig = format!("real-hasher cuckoo({},{},{})", b, nb, l);
+                    verif_kick_budget(None);
+                    let r = mccore::panics::catch(|| {
+                        let mut out: Vec<Viol> = vec![];
+                        let mut f: CuckooFilter<u64, ChoiceRng> = CuckooFilter::with_params(ChoiceRng, b, nb, l);
+                        let keys = family(kind, (b * nb) as u64 * 4 / 5);
+                        let mut stored: Vec<u64> = vec![];
+                        for (step, &k) in keys.iter().enumerate() {
+                            chooser::begin_with(&[], tail, 0);
+                            let ins = f.insert(&k);
+                            chooser::end();
+                            if ins.is_ok() {
+                                stored.push(k);
+                            }
+                            if f.len() != stored.len() {
+                                out.push(viol("C14", format!("{} len", sig), format!("step {}: len() = {} after {} successful inserts", step, f.len(), stored.len()), cfg.clone()));
+                                return out;
+                            }
+                            if step % 8 == 7 || step + 1 == keys.len() {
+                                if let Some(&x) = stored.iter().find(|&&x| !f.query(&x)) {
+                                    false_negative(&mut out, "C14", format!("{} false negative", sig), format!("step {}: inserted key {} is reported absent", step, x), cfg.clone());
+                                    return out;
+                                }
+                            }
+                        }
+                        // delete everything that was stored: every delete finds a copy of the key's class; the filter ends empty
+                        for (i, &k) in stored.iter().enumerate() {
+                            if !f.delete(&k) {
+                                out.push(viol("C14", format!("{} delete", sig), format!("delete of the {}-th inserted key {} returned false while {} copies are stored", i, k, stored.len() - i), cfg.clone()));
+                                return out;
+                            }
+                        }
+                        if f.len() != 0 || !f.is_empty() || f.verif_table().iter().any(|&x| x != 0) {
+                            out.push(viol("C14", format!("{} not empty after deleting everything", sig), format!("len() = {}, is_empty() = {}, occupied slots = {}", f.len(), f.is_empty(), f.verif_table().iter().filter(|&&x| x != 0).count()), cfg.clone()));
+                        }
+                        out
+                    });
+                    st.ops += 1;
+                    match r {
+                        Ok(v) => vs.extend(v),
+                        Err(p) => vs.push(viol("C14", format!("{} panics", sig), format!("panicked: {}", p), cfg)),
+                    }
+                }
+            }
+        }
+    }
+    if which.contains(&"qf") {
+        for &(q, r) in &[(4usize, 3usize), (6, 5), (8, 8), (5, 20)] {
+            for kind in [0usize, 3] {
+                let cfg = json!({"structure": "QuotientFilter", "hasher": "default (SipHash)", "bits_quotient": q, "bits_remainder": r, "key_family": kind});
+                let sig = format!("real-hasher qf({},{})", q, r);
+                let res = mccore::panics::catch(|| {
+                    let mut out: Vec<Viol> = vec![];
+                    let mut f: QuotientFilter<u64> = QuotientFilter::with_params(q, r);
+                    let keys = family(kind, (1u64 << q) * 2);
+                    let mut stored: Vec<u64> = vec![];
+                    let mut distinct = 0usize;
+                    for (step, &k) in keys.iter().enumerate() {
+                        match f.insert(&k) {
+                            Ok(true) => {
+                                distinct += 1;
+                                stored.push(k);
+                            }
+                            Ok(false) => stored.push(k),
+                            Err(_) => {
+                                if distinct < (1usize << q) {
+                                    out.push(viol("C13", format!("{} Full below capacity", sig), format!("step {}: insert failed with {} of {} slots used", step, distinct, 1usize << q), cfg.clone()));
+                                    return out;
+                                }
+                            }
+                        }
+                        if f.len() != distinct {
+                            out.push(viol("C13", format!("{} len", sig), format!("step {}: len() = {} after {} inserts that returned Ok(true)", step, f.len(), distinct), cfg.clone()));
+                            return out;
+                        }
+                        if step % 8 == 7 || step + 1 == keys.len() {
+                            if let Some(&x) = stored.iter().find(|&&x| !mccore::panics::watch(|| f.query(&x))) {
+                                false_negative(&mut out, "C13", format!("{} false negative", sig), format!("step {}: inserted key {} is reported absent", step, x), cfg.clone());
+                                return out;
+                            }
+                        }
+                    }
+                    out
+                });
+                st.ops += 1;
+                match res {
+                    Ok(v) => vs.extend(v),
+                    Err(p) => vs.push(viol("C13", format!("{} panics", sig), format!("panicked: {}", p), cfg)),
+                }
+            }
+        }
+    }
+    if which.contains(&"cms") {
+        for &(w, d) in &[(1usize, 1usize), (5, 3), (28, 3), (64, 4), (7, 9)] {
+            let cfg = json!({"structure": "CountMinSketch", "hasher": "default (SipHash)", "w": w, "d": d});
+            let sig = format!("real-hasher cms({}x{})", w, d);
+            let res = mccore::panics::catch(|| {
+                let mut out: Vec<Viol> = vec![];
+                let mut s: CountMinSketch<u64, u32> = CountMinSketch::with_params(w, d);
+                let mut truth: BTreeMap<u64, u32> = BTreeMap::new();
+                let mut total = 0u32;
+                for i in 0..400u64 {
+                    let k = (i * 7919) % 61;
+                    let n = (i % 4) as u32;
+                    let ret = if n == 1 { s.add(&k) } else { s.add_n(&k, &n) };
+                    *truth.entry(k).or_insert(0) += n;
+                    total += n;
+                    let q = s.query_point(&k);
+                    if ret != q {
+                        out.push(viol("C02", format!("{} add return value", sig), format!("op {}: add/add_n({}, {}) returned {} but query_point right afterwards is {}", i, k, n, ret, q), cfg.clone()));
+                        return out;
+                    }
+                    if i % 16 == 15 {
+                        for (&x, &t) in &truth {
+                            let q = s.query_point(&x);
+                            if q < t || q > total {
+                                out.push(viol("C02", format!("{} bounds", sig), format!("op {}: query_point({}) = {} outside [true = {}, total = {}]", i, x, q, t, total), cfg.clone()));
+                                return out;
+                            }
+                        }
+                    }
+                }
+                out
+            });
+            st.ops += 1;
+            match res {
+                Ok(v) => vs.extend(v),
+                Err(p) => vs.push(viol("C02", format!("{} panics", sig), format!("panicked: {}", p), cfg)),
+            }
+        }
+    }
+    if which.contains(&"hll") {
+        use pdatastructs::hyperloglog::HyperLogLog;
+        for b in [4usize, 7, 12] {
+            let cfg = json!({"structure": "HyperLogLog", "hasher": "default (SipHash)", "b": b});
+            let sig = format!("real-hasher hll(b={})", b);
+            let res = mccore::panics::catch(|| {
+                let mut out: Vec<Viol> = vec![];
+                let keys = family(3, 3000);
+                let mut a: HyperLogLog<u64> = HyperLogLog::new(b);
+                let mut c: HyperLogLog<u64> = HyperLogLog::new(b);
+                for k in &keys {
+                    a.add(k);
+                }
+                for k in keys.iter().rev() {
+                    c.add(k);
+                    c.add(k);
+                }
+                if a.registers() != c.registers() || a.count() != c.count() {
+                    out.push(viol("C17", format!("{} order / repetition", sig), "the same 3000 keys in reverse order, each twice, give different registers".into(), cfg.clone()));
+                }
+                out
+            });
+            st.ops += 1;
+            match res {
+                Ok(v) => vs.extend(v),
+                Err(p) => vs.push(viol("C17", format!("{} panics", sig), format!("panicked: {}", p), cfg)),
+            }
+        }
+    }
+    (st, vs)
+}
